@@ -167,6 +167,25 @@ def _run_session(info: Dict[str, Any], sess: Dict[str, Any], world_dir: str, non
 
 
 _NONCE = [0]
+CLOCK_EPOCH = 1_700_000_000.0
+SESSION_GAPS = (2000.0, 7200.0, 86400.0, 3456000.0, 2000.0, 86400.0, 30.0, -4000.0)
+FILE_AGES = (5.0, 600.0, 86400.0, 3.0e6)
+
+
+def _stamp_world(plan: Dict[str, Any], world_dir: str) -> None:
+    """Modification times of the world's files are simulated too: seeded ages before the first session's start."""
+    sessions = plan.get("sessions") or [{}]
+    seed = int((sessions[0].get("env") or {}).get("clock_seed", 0))
+    names = []
+    for d, _dirs, files in os.walk(world_dir):
+        for n in files:
+            names.append(os.path.join(d, n))
+    for i, p in enumerate(sorted(names)):
+        t = CLOCK_EPOCH - FILE_AGES[(seed + i) % len(FILE_AGES)]
+        try:
+            os.utime(p, (t, t))
+        except OSError:
+            pass
 
 
 def execute_plan(info: Dict[str, Any], plan: Dict[str, Any]) -> Dict[str, Any]:
@@ -180,10 +199,18 @@ def execute_plan(info: Dict[str, Any], plan: Dict[str, Any]) -> Dict[str, Any]:
     tmp_twins = ["/tmp/" + run_dir.lstrip("/"), f"/tmp/{nonce}_rel"]
     try:
         worldgen.write_world(plan["world"], world_dir)
+        _stamp_world(plan, world_dir)
         sessions = []
-        for sess in plan["sessions"]:
+        clock_start = CLOCK_EPOCH
+        for k, sess in enumerate(plan["sessions"]):
             sess = json.loads(json.dumps(sess).replace("{N}", nonce))
             sess.setdefault("env", {})
+            if int(sess["env"].get("clock_model", 1)) >= 2 and "clock_start" not in sess["env"]:
+                # interpreter lives of one world start at different wall-clock times: minutes, hours, days or
+                # weeks later - or earlier (the clock was reset between two lives)
+                if k > 0:
+                    clock_start += SESSION_GAPS[(int(sess["env"].get("clock_seed", 0)) >> 7) % len(SESSION_GAPS)]
+                sess["env"]["clock_start"] = clock_start
             sess["env"]["extra_roots"] = ["/tmp/" + world_dir.lstrip("/"), f"/tmp/{nonce}_rel"]
             sessions.append(_run_session(info, sess, world_dir, nonce))
         h = hashlib.sha256()
